@@ -2,6 +2,7 @@ package gen
 
 import (
 	"strconv"
+	"strings"
 
 	"kvqlverif/rt"
 )
@@ -30,6 +31,59 @@ func (g *PredGen) lit(pool []string) *Node {
 		return Str("a")
 	}
 	return Str(pool[g.R.Intn(len(pool))])
+}
+
+// keyPattern is an anchored regular expression built from the key literals of the store: the
+// literal text after the anchor is a prefix of every match only when nothing after it can take it
+// back (a quantifier that allows zero repetitions, an alternation).
+func (g *PredGen) keyPattern() string {
+	plain := func(s string) bool {
+		if s == "" {
+			return false
+		}
+		for i := 0; i < len(s); i++ {
+			c := s[i]
+			if !(c >= 'a' && c <= 'z' || c >= 'A' && c <= 'Z' || c >= '0' && c <= '9') {
+				return false
+			}
+		}
+		return true
+	}
+	r := g.R
+	var l, m string
+	for try := 0; try < 4 && !plain(l); try++ {
+		if len(g.KeyLits) == 0 {
+			return ""
+		}
+		l = g.KeyLits[r.Intn(len(g.KeyLits))]
+	}
+	if !plain(l) {
+		return ""
+	}
+	m = g.KeyLits[r.Intn(len(g.KeyLits))]
+	if !plain(m) {
+		m = "zz"
+	}
+	switch r.Intn(9) {
+	case 0:
+		return "^" + l
+	case 1:
+		return "^" + l + "*$"
+	case 2:
+		return "^" + l + "?"
+	case 3:
+		return "^" + l + "|^" + m
+	case 4:
+		return "^(" + l + "|" + m + ")"
+	case 5:
+		return "^" + l + "{0,2}"
+	case 6:
+		return "^" + l + "|" + m + "$"
+	case 7:
+		return "^" + l + "*" + m
+	default:
+		return "^" + l + ".*$"
+	}
 }
 
 func (g *PredGen) field() (*Node, []string) {
@@ -130,7 +184,55 @@ func sameField(a, b *Node) bool {
 func (g *PredGen) Atom(depth int) *Node {
 	r := g.R
 	for {
-		switch r.Intn(14) {
+		switch r.Intn(15) {
+		case 14: // a key list with a foreign key between two keys of one prefix, and that prefix
+			if g.NoKeyPin || len(g.KeyLits) < 3 {
+				continue
+			}
+			l1 := g.KeyLits[r.Intn(len(g.KeyLits))]
+			if len(l1) < 2 {
+				continue
+			}
+			pre := l1[:r.Range(1, len(l1)-1)]
+			var same, other []string
+			for _, k := range g.KeyLits {
+				if k == l1 {
+					continue
+				}
+				if strings.HasPrefix(k, pre) {
+					same = append(same, k)
+				} else {
+					other = append(other, k)
+				}
+			}
+			if len(same) == 0 {
+				continue
+			}
+			foreign := "~" + pre
+			if len(other) > 0 && r.Chance(2, 3) {
+				foreign = other[r.Intn(len(other))]
+			}
+			items := []*Node{Str(l1), Str(foreign), Str(same[r.Intn(len(same))])}
+			if r.Chance(1, 3) {
+				items = append([]*Node{Str(foreign)}, items...)
+				items = items[:3+r.Intn(2)]
+			}
+			if g.Avoid["in-duplicate-key"] {
+				seen := map[string]bool{}
+				out := items[:0]
+				for _, it := range items {
+					if !seen[it.S] {
+						seen[it.S] = true
+						out = append(out, it)
+					}
+				}
+				items = out
+			}
+			a, b := In(Key(), items...), Bin("^=", Key(), Str(pre))
+			if r.Bool() {
+				a, b = b, a
+			}
+			return And(a, b)
 		case 13: // two prefix tests, one prefix extending the other, in either order, joined either way
 			if g.NoKeyPin || len(g.KeyLits) == 0 {
 				continue
@@ -187,6 +289,11 @@ func (g *PredGen) Atom(depth int) *Node {
 			if op == "~=" {
 				if g.NoRegex {
 					continue
+				}
+				if f.K == KKey && r.Bool() {
+					if pat := g.keyPattern(); pat != "" {
+						return Bin(op, f, Str(pat))
+					}
 				}
 				return Bin(op, f, Str(rePool[r.Intn(len(rePool))]))
 			}
